@@ -1,7 +1,7 @@
 (* C04 — UUIDs stay unique at load, creation and save; failed creation leaves no trace. *)
 From Coq Require Import ZArith List Bool.
 Import ListNotations.
-From V Require Import Model.Val Model.Graph Proofs.GraphP.
+From V Require Import Model.Val Model.Graph Model.Create Proofs.GraphP Proofs.CreateP.
 Open Scope Z_scope.
 
 (* 1. the duplicate check at load and save accepts exactly when explicitly overridden or no id is
@@ -47,3 +47,32 @@ Theorem paired_undo_restores : forall fr f hs, FragOK fr -> f = fname fr ->
   exists fr', step_frag false fr (Detach f hs) = ROk fr' /\ FragOK fr' /\ fnodes fr' = without hs (fnodes fr).
 Proof. exact detach_preserves. Qed.
 Print Assumptions paired_undo_restores.
+
+(* 4. a creation that fails after ANY number j of nested objects were already created (and indexed) — the
+      sequence the code performs: reserve the id, attach+index the nested objects, then on failure un-index them,
+      remove the element, drop the reservation — leaves the fragment exactly as before: same elements, and every
+      lookup in the id / type / href indexes answers as before (nothing indexed, nothing reserved).
+      Hypotheses = what generate_uuid and fresh lxml elements guarantee: the ids and handles of the new objects
+      are not in use, and the new objects carry plain ids (no href, the id attribute kinds agree). *)
+Theorem failed_creation_leaves_no_trace : forall fr rq j,
+  let done := firstn j (r_nested rq) in
+  fname fr = r_frag rq ->
+  lk_id fr (r_uuid rq) = None ->
+  Forall plain done -> NoDup (ids_of_nodes done) -> ~ In (r_uuid rq) (ids_of_nodes done) ->
+  (forall u, In u (ids_of_nodes done) -> lk_id fr u = None) ->
+  NoDup (map nh done) -> (forall n, In n (fnodes fr) -> ~ In (nh n) (map nh done)) ->
+  (forall n, In n done -> lk_xt fr (nh n) = None) ->
+  exists fr', create rq (Some j) [fr] = ROk [fr'] /\ fnodes fr' = fnodes fr /\
+    (forall k, lk_id fr' k = lk_id fr k) /\ (forall k, lk_xt fr' k = lk_xt fr k) /\ (forall k, lk_hr fr' k = lk_hr fr k).
+Proof. exact failed_create_restores. Qed.
+Print Assumptions failed_creation_leaves_no_trace.
+
+(* the hypotheses are satisfiable, and the handler found before the fix (bare tree removal) leaves the nested id indexed *)
+Example failed_creation_instance :
+  let rq := mkReq 0 900 (mkNode 50 (Some 7) (Some 100) [900] [900] None) [mkNode 51 (Some 50) (Some 101) [901] [901] None] in
+  exists fr', create rq (Some 1%nat) [demo_frag] = ROk [fr'] /\ fnodes fr' = fnodes demo_frag /\ lk_id fr' 901 = None /\ lk_id fr' 900 = None.
+Proof. exact failed_create_hypotheses_satisfiable. Qed.
+Example failed_creation_old_handler_refuted :
+  let rq := mkReq 0 900 (mkNode 50 (Some 7) (Some 100) [900] [900] None) [mkNode 51 (Some 50) (Some 101) [901] [901] None] in
+  exists fr', run false (create_ops_old rq 1) [demo_frag] = ROk [fr'] /\ fnodes fr' = fnodes demo_frag /\ lk_id fr' 901 = Some (Some 51) /\ lk_id demo_frag 901 = None.
+Proof. exact failed_create_old_leaves_ghost. Qed.
